@@ -25,7 +25,7 @@ _ATLOG = (" The atomic-operation log is part of the comparison: under hook H3 th
 _INJ = (" Behavioural tie of the interleaving model (preemption injection): under hook H4 the harness preempts one call of "
         "the real crate immediately before each of its atomic operations and runs complete calls of other agents there "
         "(exactly the schedule 'A preempted after k atomic operations, B runs, A resumes', deterministically, for every "
-        "prefix history up to a depth, every call, every k, every injected call); the recorded atomic operations, "
+        "prefix history up to a depth, every call, every k, every injected call, followed by seeded random scenarios); the recorded atomic operations, "
         "attributed to their agents, are replayed in an acceptor of the atomic-granularity model "
         "(lean/ALock/Atomic/Accept.lean): each must be the step the agent's program counter allows and must have "
         "observed what the model says (value returned, CAS success), each return value must match the agent's final "
@@ -94,7 +94,7 @@ CLAIMS = {
         "note": "PARTIAL: atomic calls in the poll-granular model; 'never succeeds in conflict' under interleavings is C14_accepted_* (the interleaving theorems applied to the recorded, accepted executions of the crate under preemption injection - bounded: one preempted call, up to two injected calls).",
     },
     "C15": {
-        "text": "In the models the strong count is a counter updated exactly where the code clones, moves or drops the Arc; Lean theorems state that after every history (Mutex, Semaphore, RwLock; conversions, forget, cancellation at any point, handles cloned and dropped down to zero) it equals user handles + owned guards alive + owning futures (lock_arc until completion, UpgradeArc until completion or drop, acquire_arc until drop), hence never over-releases, and is zero exactly when none is left. " + _TIE + " Compared fields: outcome, Arc::strong_count, and the payload's drop counter (dropped exactly once)." + " Search aid: the harness replays last-owner histories and random ones under Miri (use-after-free, leaks)." + _ATLOG,
+        "text": "In the models the strong count is a counter updated exactly where the code clones, moves or drops the Arc; Lean theorems state that after every history (Mutex, Semaphore, RwLock; conversions, forget, cancellation at any point, handles cloned and dropped down to zero) it equals user handles + owned guards alive + owning futures (lock_arc until completion, UpgradeArc until completion or drop, acquire_arc until drop), hence never over-releases, and is zero exactly when none is left. " + _TIE + " Compared fields: outcome, Arc::strong_count, and the payload's drop counter (dropped exactly once)." + " Search aid: the harness replays last-owner histories and random ones under Miri (use-after-free, leaks)." + _ATLOG + _INJ,
         "note": "Arc is modelled, not verified. A memory error that leaves the count unchanged (e.g. unlocking through a dangling reference after the Arc was freed) is outside the theorems; the Miri run searches for it.",
     },
     "C03": {
